@@ -631,6 +631,149 @@ let conc_main file =
      | _ -> ())
   done with End_of_file -> ())
 
+
+(* ======================= block mode: blocking pops (coq/Model/Block.v) ================= *)
+let bsplit c s = if s = "-" || s = "" then [] else String.split_on_char c s
+let bnat s = nat_of_int (int_of_string s)
+let bz s = coqz_of_z (Z.of_string s)
+let parse_blists spec =
+  List.map (fun kv -> match String.split_on_char '=' kv with
+                      | [k; vs] -> (bnat k, List.map bz (bsplit '.' vs))
+                      | _ -> failwith "lists") (bsplit ',' spec)
+let parse_bcmd c =
+  match String.split_on_char ':' c with
+  | ["LPUSH"; k; vs] -> Block.BPush (Block.SL, bnat k, List.map bz (bsplit '.' vs))
+  | ["RPUSH"; k; vs] -> Block.BPush (Block.SR, bnat k, List.map bz (bsplit '.' vs))
+  | ["LPOP"; k] -> Block.BPop (Block.SL, bnat k)
+  | ["RPOP"; k] -> Block.BPop (Block.SR, bnat k)
+  | ["MOVE"; a; b] -> Block.BMove (bnat a, bnat b)
+  | ["BLPOP"; ks; t] -> Block.BBlock (Block.SL, List.map bnat (bsplit '.' ks), bz t)
+  | ["BRPOP"; ks; t] -> Block.BBlock (Block.SR, List.map bnat (bsplit '.' ks), bz t)
+  | _ -> failwith ("bcmd " ^ c)
+let parse_bop o =
+  let n = String.sub o 1 (String.length o - 1) in
+  match o.[0] with
+  | 'r' -> Block.Run (bnat n) | 'f' -> Block.Fire (bnat n) | 't' -> Block.Tick (bz n)
+  | _ -> failwith ("bop " ^ o)
+let show_bop o = match o with
+  | Block.Run t -> "r" ^ string_of_int (int_of_nat t)
+  | Block.Fire t -> "f" ^ string_of_int (int_of_nat t)
+  | Block.Tick d -> "t" ^ Z.to_string (z_of_coqz d)
+let zs z = Z.to_string (z_of_coqz z)
+let show_breply r = match r with
+  | Block.RInt n -> "I" ^ zs n
+  | Block.RElem None -> "Enil" | Block.RElem (Some v) -> "E" ^ zs v
+  | Block.RBlock None -> "Bnil"
+  | Block.RBlock (Some (k, v)) -> "B" ^ string_of_int (int_of_nat k) ^ "/" ^ zs v
+let bpoint p = match int_of_nat (Block.bpc_tag p) with
+  | 0 -> "start" | 1 | 3 -> "notify" | 2 -> "move" | 4 -> "reg" | 5 -> "try" | 6 -> "select" | 7 -> "dereg" | _ -> "done"
+let bj l = if l = [] then "-" else String.concat "," l
+let show_boutcome id keys (s : Block.bstate) extra =
+  let lists = List.filter_map (fun k ->
+      match Block.lget (nat_of_int k) s.Block.lists with
+      | [] -> None
+      | l -> Some (string_of_int k ^ ":" ^ String.concat "." (List.map zs l))) keys in
+  let replies = List.filter_map (fun (t, x) -> match x.Block.b_pc with
+      | Block.BDone r -> Some (string_of_int (int_of_nat t) ^ ":" ^ show_breply r) | _ -> None) s.Block.bths in
+  let regs = List.filter_map (fun k -> match Block.rget (nat_of_int k) s.Block.reg with
+      | [] -> None | l -> Some (string_of_int k ^ ":" ^ string_of_int (List.length l))) keys in
+  let notdone = List.filter_map (fun (t, x) -> match x.Block.b_pc with
+      | Block.BDone _ -> None | p -> Some (string_of_int (int_of_nat t) ^ ":" ^ bpoint p)) s.Block.bths in
+  Printf.printf "BOUT %s lists=%s replies=%s reg=%s notdone=%s%s\n" id (bj lists) (bj replies) (bj regs) (bj notdone) extra
+let bkeys lists cmds =
+  List.sort_uniq compare
+    (List.map (fun (k, _) -> int_of_nat k) lists
+     @ List.concat_map (fun c -> match c with
+         | Block.BPush (_, k, _) | Block.BPop (_, k) -> [int_of_nat k]
+         | Block.BMove (a, b) -> [int_of_nat a; int_of_nat b]
+         | Block.BBlock (_, ks, _) -> List.map int_of_nat ks) cmds)
+
+(* replay: every op must be enabled in the model *)
+let block_run file =
+  let ic = open_in file in
+  (try while true do
+    let l = input_line ic in
+    (match split_ws l with
+     | "BSCN" :: id :: lspec :: cspec :: sspec :: _ ->
+         let lists = parse_blists lspec in
+         let cmds = List.map parse_bcmd (bsplit ',' cspec) in
+         let sched = List.map parse_bop (bsplit ',' sspec) in
+         let bad = ref "" in
+         let s = ref (Block.binit lists cmds) in
+         List.iteri (fun i o ->
+             match Block.bstep o !s with
+             | Some s' -> s := s'
+             | None -> if !bad = "" then bad := Printf.sprintf " BADSTEP=%d:%s" i (show_bop o)) sched;
+         show_boutcome id (bkeys lists cmds) !s !bad
+     | _ -> ())
+  done with End_of_file -> ())
+
+(* generation: random scenarios with a schedule of enabled ops chosen by running the model *)
+let block_gen seed count =
+  let st = ref (Int64.of_int (seed * 2654435761 + 12345)) in
+  let rnd n =
+    st := Int64.add (Int64.mul !st 6364136223846793005L) 1442695040888963407L;
+    let x = Int64.to_int (Int64.shift_right_logical !st 33) in
+    if n <= 0 then 0 else x mod n in
+  let pick l = List.nth l (rnd (List.length l)) in
+  for c = 0 to count - 1 do
+    let nkeys = 1 + rnd 3 in
+    let keys = List.init nkeys (fun i -> i + 1) in
+    let next = ref 100 in
+    let fresh () = incr next; !next in
+    let lists = List.filter_map (fun k ->
+        let n = pick [0; 0; 0; 1; 2] in
+        if n = 0 then None else Some (k, List.init n (fun _ -> fresh ()))) keys in
+    let nth = 2 + rnd 4 in
+    let somekeys () =
+      let n = pick [1; 1; 2; 2; 3] in
+      List.init n (fun _ -> pick keys) in
+    let cmds = List.init nth (fun t ->
+        match (if t = 0 then pick [5; 6] else if t = 1 then pick [0; 1] else rnd 8) with
+        | 0 -> Printf.sprintf "LPUSH:%d:%s" (pick keys) (String.concat "." (List.init (1 + rnd 3) (fun i -> string_of_int (1000 * (t + 1) + i))))
+        | 1 -> Printf.sprintf "RPUSH:%d:%s" (pick keys) (String.concat "." (List.init (1 + rnd 3) (fun i -> string_of_int (1000 * (t + 1) + i))))
+        | 2 -> Printf.sprintf "LPOP:%d" (pick keys)
+        | 3 -> Printf.sprintf "RPOP:%d" (pick keys)
+        | 4 -> if nkeys >= 2 then (let a = pick keys in let b = pick (List.filter (fun k -> k <> a) keys) in Printf.sprintf "MOVE:%d:%d" a b)
+               else Printf.sprintf "RPUSH:%d:%d" (pick keys) (1000 * (t + 1))
+        | 5 | 7 -> Printf.sprintf "BLPOP:%s:%d" (String.concat "." (List.map string_of_int (somekeys ()))) (pick [0; 50; 50; 100])
+        | _ -> Printf.sprintf "BRPOP:%s:%d" (String.concat "." (List.map string_of_int (somekeys ()))) (pick [0; 50; 50; 100])) in
+    let lspec = bj (List.map (fun (k, vs) -> Printf.sprintf "%d=%s" k (String.concat "." (List.map string_of_int vs))) lists) in
+    let cspec = String.concat "," cmds in
+    let s = ref (Block.binit (parse_blists lspec) (List.map parse_bcmd cmds)) in
+    let sched = ref [] in
+    let apply o = (match Block.bstep o !s with Some s' -> s := s'; sched := o :: !sched | None -> ()) in
+    let enabled_ops () =
+      List.concat_map (fun t ->
+          (if Block.enabled (Block.Run (nat_of_int t)) !s then [Block.Run (nat_of_int t)] else [])
+          @ (if Block.enabled (Block.Fire (nat_of_int t)) !s then [Block.Fire (nat_of_int t)] else []))
+        (List.init nth (fun t -> t)) in
+    let steps = 10 + rnd 60 in
+    (try for _ = 1 to steps do
+        let ops = enabled_ops () in
+        let ops = if rnd 6 = 0 then Block.Tick (coqz_of_int (pick [10; 50; 50; 100])) :: ops else ops in
+        if ops = [] then raise Exit;
+        apply (pick ops)
+      done with Exit -> ());
+    (* drain: run everything that can run; then let the clock pass and fire the timers *)
+    let progress = ref true in
+    let rounds = ref 0 in
+    while !progress && !rounds < 200 do
+      incr rounds;
+      progress := false;
+      (match List.filter (fun o -> match o with Block.Run _ -> true | _ -> false) (enabled_ops ()) with
+       | o :: _ -> apply o; progress := true
+       | [] ->
+           (match List.filter (fun o -> match o with Block.Fire _ -> true | _ -> false) (enabled_ops ()) with
+            | o :: _ -> apply o; progress := true
+            | [] ->
+                let waiting = List.exists (fun (_, x) -> match x.Block.b_cmd, x.Block.b_pc with
+                    | Block.BBlock (_, _, tmo), Block.BWSelect -> z_of_coqz tmo <> Z.zero | _ -> false) !s.Block.bths in
+                if waiting then begin apply (Block.Tick (coqz_of_int 100)); progress := true end))
+    done;
+    Printf.printf "BSCN g%d-%d %s %s %s\n" seed c lspec cspec (bj (List.rev_map show_bop !sched))
+  done
+
 let judge_main file =
   let ic = open_in file in
   let lines = ref [] in
@@ -877,6 +1020,8 @@ let () =
   | _ :: "codec" :: file :: _ -> codec_main file
   | _ :: "trace" :: file :: _ -> trace_main file
   | _ :: "conc" :: file :: _ -> conc_main file
+  | _ :: "block-run" :: file :: _ -> block_run file
+  | _ :: "block-gen" :: seed :: count :: _ -> block_gen (int_of_string seed) (int_of_string count)
   | _ :: "judge" :: file :: _ -> judge_main file
   | _ :: "reader" :: file :: _ -> reader_main file
   | _ -> prerr_endline "usage: mrun <mode> <file>"; exit 2
